@@ -1001,6 +1001,7 @@ func coreAtoms() []*Term {
 		// two requirements on one key (both must hold)
 		{&LS{ML: ml(K2, "1"), Exprs: []Req{{K2, "NotIn", v("2")}}}, 2},
 		{&LS{Exprs: []Req{{K1, "Exists", nil}, {K1, "NotIn", v("1")}}}, 2},
+		{&LS{Exprs: []Req{{K1, "In", v("1", "2")}, {K1, "In", v("2", "3")}}}, 2}, // two positive requirements on one key
 	} {
 		out = append(out, lvl(tLabelSelector(x.l), x.lv))
 	}
@@ -1012,7 +1013,8 @@ func coreAtoms() []*Term {
 		lvl(tSelector(Sel{Reqs: []Req{{K1, "=", v("1")}}}), 3),
 		lvl(tSelector(Sel{Reqs: []Req{{K1, "==", v("2")}}}), 3),
 		lvl(tSelector(Sel{Reqs: []Req{{K2, "Exists", nil}, {K1, "NotIn", v("1", "2")}}}), 3),
-		lvl(tSelector(Sel{Reqs: []Req{{K2, "Exists", nil}, {K2, "!=", v("1")}}}), 2))
+		lvl(tSelector(Sel{Reqs: []Req{{K2, "Exists", nil}, {K2, "!=", v("1")}}}), 2),
+		lvl(tSelector(Sel{Reqs: []Req{{K2, "In", v("1", "2")}, {K2, "In", v("2", "3")}}}), 2))
 	return out
 }
 
